@@ -414,4 +414,44 @@ def r7_stateless_lookups(chk):
     chk.floor('C14.R7', 8, 'methods reachable from the getData of five readers')
 
 
-RULES = [r1_file_reader, r2_variants, r3_index_first, r4_fallthrough, r5_recursion, r6_url_dispatch, r7_stateless_lookups]
+def r8_result_plumbing(chk):
+    model = chk.model
+    chk.doc('C14.R8', 'every reader returns MibInfo(file=<variant file name>, name=<variant alias>, ...) of the variant '
+                      'that matched, together with the decoded content of that variant; the ZIP reader takes the '
+                      'modification time from the member that was read')
+    for rel, cname in ((ZIP, 'ZipReader'), ('pysmi/reader/httpclient.py', 'HttpReader'),
+                       ('pysmi/reader/ftpclient.py', 'FtpReader')):
+        ci = model.cls(rel, cname)
+        o, fn = ci.find_method('getData')
+        loops = [n for n in walk_no_nested(fn) if isinstance(n, ast.For) and 'self.getMibVariants(' in norm(n.iter)]
+        ok = len(loops) == 1 and isinstance(loops[0].target, ast.Tuple)
+        chk.ob('C14.R8', '%s.getData/variant-loop' % cname, ok, where(ci.mod, fn), '')
+        if not ok:
+            continue
+        alias, fname = [e.id for e in loops[0].target.elts]
+        rets = [x for x in walk_no_nested(loops[0]) if isinstance(x, ast.Return) and isinstance(x.value, ast.Tuple)]
+        ok = len(rets) == 1 and isinstance(rets[0].value.elts[0], ast.Call)
+        if ok:
+            kws = dict((k.arg, norm(k.value)) for k in rets[0].value.elts[0].keywords)
+            ok = kws.get('file') == fname and kws.get('name') == alias and 'mtime' in kws and 'path' in kws
+        chk.ob('C14.R8', '%s.getData/mibinfo' % cname, ok, where(ci.mod, rets[0]) if rets else where(ci.mod, fn),
+               'MibInfo must name the variant that matched (file=%s, name=%s)' % (fname, alias))
+        if rets:
+            chk.ob('C14.R8', '%s.getData/decoded' % cname, norm(rets[0].value.elts[1]).startswith('decode(') or
+                   norm(rets[0].value.elts[1]) in ('data',), where(ci.mod, rets[0]), norm(rets[0].value.elts[1])[:60])
+    zi = model.cls(ZIP, 'ZipReader')
+    o, gd = zi.find_method('getData')
+    b = common.pfind([s for s in walk_no_nested(gd) if isinstance(s, ast.Assign)], '$d, $m = self._readZipFile($r)')
+    b2 = common.pfind([s for s in walk_no_nested(gd) if isinstance(s, ast.Assign)], '$r = self._members[$f]')
+    chk.ob('C14.R8', 'ZipReader.getData/reads-the-member-found', bool(b and b2 and b['r'] == b2['r']), where(zi.mod, gd), '')
+    o, rz = zi.find_method('_readZipDirectory')
+    ok = common.pmatch(norm(rz), '$t = time.mktime(datetime.datetime(*$m.date_time[:6]).timetuple())', full=False) is not None
+    chk.ob('C14.R8', 'ZipReader._readZipDirectory/member-mtime', ok, where(zi.mod, rz), 'mtime must come from the member')
+    cb = model.cls('pysmi/reader/callback.py', 'CallbackReader')
+    o, fn = cb.find_method('getData')
+    calls = [c for c in walk_no_nested(fn) if isinstance(c, ast.Call) and common.is_self_attr(c.func, '_cbFun')]
+    ok = len(calls) == 1 and [norm(a) for a in calls[0].args] == [fn.args.args[1].arg, 'self._cbCtx']
+    chk.ob('C14.R8', 'CallbackReader.getData/callback-args', ok, where(cb.mod, fn), '')
+
+
+RULES = [r1_file_reader, r2_variants, r3_index_first, r4_fallthrough, r5_recursion, r6_url_dispatch, r7_stateless_lookups, r8_result_plumbing]
